@@ -8,9 +8,23 @@
 //!           whole-file result i == result of compiling pipeline i by name == result of compiling a
 //!           file in which the other Pipeline definitions were deleted; unknown name / no pipeline are
 //!           clean errors; no-pipeline mode returns exactly one result.
+//!
+//! request : C17.typer \t <on|off> \t <program>        (program: see c17/wgen.rs; on/off = API define WIDE_ON)
+//! observe : ok:P0{g=2;Compute=cs_0@8,4,1;-}P1{g=0;Vertex=vs_1@-,Pixel=ps_2@-;rt=[..];depth=..;cull=..;wind=..;blend=[..]}
+//!           | err:<Kind>@<pipeline>.<path> | err:other:<first line>      (IR pipeline list of the real type checker)
+//! oracle  : every IR pipeline of the whole file equals the IR pipeline of the file in which the other Pipeline
+//!           blocks were deleted (name, default bind group, stages with entry *names* and sizes, state)
+//!
+//! request : C17.wide \t <tgt> \t <mode> \t <on|off>[,inc][,vl] \t <program> \t <fails: names joined by , or -> \t bare=<ok|err>
+//! observe : ok:[Stage(entry)@x,y,z,..|state].. | err:front | err:none | err:unknown:X | err:build | panic:<site>
+//! oracle  : as C17.select, on the real compile() with the request's options (API define, include file, layout
+//!           validation); plus: a front-end rejection is the same text whatever the selection mode.
 use crate::compile_util::*;
 use crate::progen::*;
 use crate::util::*;
+
+pub mod wgen;
+use wgen::*;
 
 fn show_outcome(o: &CompileOutcome) -> String {
     match o {
@@ -176,11 +190,48 @@ fn parse_mode(s: &str) -> Option<Mode> {
     }
 }
 
+/// debugging aid: `harness c17 probe FILE [tgt] [mode]` compiles a file from disk and prints what comes back
+fn probe(args: &Args) {
+    let Some(path) = args.extra.get(1) else { return };
+    let src = std::fs::read_to_string(path).unwrap_or_default();
+    let tgts: Vec<Tgt> = match args.extra.get(2).and_then(|t| Tgt::parse(t)) {
+        Some(t) => vec![t],
+        None => ALL_TARGETS.to_vec(),
+    };
+    let mode = args.extra.get(3).and_then(|m| parse_mode(m)).unwrap_or(Mode::All);
+    let verbose = args.extra.iter().any(|a| a == "-v");
+    for t in tgts {
+        match compile_src(&src, t, mode.clone()) {
+            CompileOutcome::Ok(ps) => {
+                for p in ps {
+                    println!("==== {} {:?} state={:016x} slots={:?}", t.name(), p.stages, fnv64(p.state.as_bytes()), p.slots);
+                    if verbose {
+                        println!("{}", p.state);
+                    }
+                    if verbose {
+                        println!("{}", p.text());
+                    }
+                }
+            }
+            CompileOutcome::Err(e) => println!("==== {} ERR {}", t.name(), one_line(&e)),
+            CompileOutcome::Panic(e) => println!("==== {} PANIC {}", t.name(), e),
+        }
+    }
+}
+
 pub fn run(args: &Args, out: &mut Out) {
     let mut hist = Hist::default();
+    if args.extra.first().map(|s| s.as_str()) == Some("probe") {
+        probe(args);
+        return;
+    }
     if let Some(lines) = args.request_lines() {
         for line in lines {
             let f: Vec<&str> = line.split('\t').collect();
+            if f[0] == "C17.typer" || f[0] == "C17.wide" {
+                run_wide_line(&f, out, &mut hist);
+                continue;
+            }
             if f.len() != 6 || f[0] != "C17.select" {
                 continue;
             }
@@ -192,7 +243,7 @@ pub fn run(args: &Args, out: &mut Out) {
         out.stat(&format!("{{\"mode\":\"replay\",\"hist\":{}}}", hist.json()));
         return;
     }
-    let n = args.n.unwrap_or(if args.thorough() { 5000 } else { 300 });
+    let n = args.n.unwrap_or(if args.thorough() { 3500 } else { 300 });
     let mut rng = Rng::new(args.seed);
     for _ in 0..n {
         let seed = rng.next() >> 16;
@@ -210,5 +261,470 @@ pub fn run(args: &Args, out: &mut Out) {
             }
         }
     }
+    generate_wide(args, out, &mut hist);
     out.stat(&format!("{{\"programs\":{},\"hist\":{}}}", n, hist.json()));
+}
+
+// ------------------------------------------------------------------------------------------------ wide programs
+
+fn show_tgs(t: &Option<(u32, u32, u32)>) -> String {
+    match t {
+        Some((x, y, z)) => format!("{},{},{}", x, y, z),
+        None => "-".into(),
+    }
+}
+
+/// canonical rendering of the graphics state (mirrored by Driver/C17.lean)
+pub fn show_state(st: &Option<rssl::ir::GraphicsPipelineState>) -> String {
+    let Some(g) = st else { return "-".into() };
+    let rt: Vec<String> = g.render_target_formats.iter().map(|f| f.clone().unwrap_or_else(|| "-".into())).collect();
+    let def = rssl::ir::BlendAttachmentState::default();
+    let att: Vec<String> = g
+        .blend_state
+        .attachments
+        .iter()
+        .map(|a| {
+            if *a == def {
+                "d".to_string()
+            } else {
+                format!(
+                    "{}:{:?}:{:?}:{:?}:{:?}:{:?}:{:?}:{}",
+                    if a.blend_enabled { 1 } else { 0 },
+                    a.src_blend,
+                    a.dst_blend,
+                    a.blend_op,
+                    a.src_blend_alpha,
+                    a.dst_blend_alpha,
+                    a.blend_op_alpha,
+                    a.write_mask.0
+                )
+            }
+        })
+        .collect();
+    format!(
+        "rt=[{}];depth={};cull={:?};wind={:?};blend=[{}]",
+        rt.join(","),
+        g.depth_target_format.clone().unwrap_or_else(|| "-".into()),
+        g.cull_mode,
+        g.winding_order,
+        att.join("/")
+    )
+}
+
+/// map a rendered diagnostic to `Kind@pipeline.path`
+fn classify_front_error(text: &str, r: &Rendered) -> String {
+    let first = text.lines().next().unwrap_or("");
+    const KINDS: [(&str, &str); 12] = [
+        ("pipeline with the same name is already defined", "AlreadyDefined"),
+        ("pipeline must have at least one entry point", "NoEntryPoint"),
+        ("pipeline has an invalid combination of stages", "InvalidStageCombination"),
+        ("unknown function for entry point", "EntryUnknown"),
+        ("unknown property", "PropertyUnknown"),
+        ("property declared multiple times", "PropertyDuplicate"),
+        ("graphics pipeline state may only be applied to a graphics pipeline", "RequiresGraphics"),
+        ("state requires a string argument", "RequiresString"),
+        ("state requires an identifier argument", "RequiresIdentifier"),
+        ("state requires an integer argument", "RequiresInteger"),
+        ("state requires a float argument", "RequiresFloat"),
+        ("state set to invalid value", "ArgumentUnknown"),
+    ];
+    // `<file>:<line>:<col>: error: <message>`
+    let mut parts = first.splitn(4, ':');
+    let (file, line) = (parts.next().unwrap_or(""), parts.next().unwrap_or("").parse::<usize>().unwrap_or(0));
+    let msg = first.split("error: ").nth(1).unwrap_or("");
+    if let Some(p) = r.path_of(file, line) {
+        if p.starts_with("R:") {
+            // a declaration the generator made invalid on purpose
+            return format!("err:decl@{}", p.trim_end_matches(".0"));
+        }
+        for (m, k) in KINDS {
+            if msg.starts_with(m) {
+                return format!("err:{}@{}", k, p);
+            }
+        }
+    }
+    format!("err:other:{}", one_line(first))
+}
+
+/// one IR pipeline as the model prints it
+fn show_ir_pipeline(m: &rssl::ir::Module, p: &rssl::ir::PipelineDefinition) -> String {
+    let st: Vec<String> = p
+        .stages
+        .iter()
+        .map(|s| format!("{:?}={}@{}", s.stage, m.function_registry.get_function_name(s.entry_point), show_tgs(&s.thread_group_size)))
+        .collect();
+    format!("{}{{g={};{};{}}}", p.name.node, p.default_bind_group_index, st.join(","), show_state(&p.graphics_pipeline_state))
+}
+
+fn front_of(prog: &WProgram, on: bool, include: bool) -> (Result<Vec<String>, String>, Rendered) {
+    let r = render_wide(prog, &RenderOpts { include });
+    let defs: Vec<(&str, &str)> = if on { vec![("WIDE_ON", "1")] } else { Vec::new() };
+    let res = guard(|| match front_end("main.rssl", &r.files, &defs) {
+        Ok(m) => Ok(m.pipelines.iter().map(|p| show_ir_pipeline(&m, p)).collect::<Vec<_>>()),
+        Err(e) => Err(if e.stage() == "parse" { format!("parse-error {}", e.text()) } else { e.text().to_string() }),
+    });
+    let res = match res {
+        Ok(x) => x,
+        Err(p) => Err(format!("panic {}", p)),
+    };
+    (res, r)
+}
+
+fn run_typer(on: bool, prog_s: &str, out: &mut Out, hist: &mut Hist) {
+    let req = format!("C17.typer\t{}\t{}", if on { "on" } else { "off" }, prog_s);
+    let Some(prog) = WProgram::parse(prog_s) else {
+        out.case(&req, "", "SKIP:bad program");
+        return;
+    };
+    let (res, r) = front_of(&prog, on, false);
+    let mut fails: Vec<String> = Vec::new();
+    let obs = match &res {
+        Ok(ps) => format!("ok:{}", ps.join("")),
+        Err(e) if e.starts_with("panic ") => {
+            fails.push(e.clone());
+            format!("panic:{}", &e[6..])
+        }
+        Err(e) if e.starts_with("parse-error ") => "err:parse".to_string(),
+        Err(e) => classify_front_error(e, &r),
+    };
+    hist.add(&format!("typer={}", if obs.starts_with("ok:") { "ok" } else { obs.split('@').next().unwrap_or("") }));
+    let act = prog.active(on);
+    hist.add(&format!("typer-pipes={}", act.pipes().len()));
+    if let Ok(ps) = &res {
+        if ps.len() != act.pipes().len() {
+            fails.push(format!("{} IR pipelines for {} definitions", ps.len(), act.pipes().len()));
+        }
+        // the active pipelines are numbered among *all* pipeline items of the program
+        let mut k = 0;
+        let all = prog.pipes();
+        for (i, p) in all.iter().enumerate() {
+            let active = !(p.flags.contains('D') && !on) && !(p.flags.contains('E') && on);
+            if !active {
+                continue;
+            }
+            let (alone, _) = front_of(&prog.keep_pipes(&|j| j == i), on, false);
+            match alone {
+                Ok(a) if a.len() == 1 && Some(&a[0]) == ps.get(k) => {}
+                Ok(a) => fails.push(format!("pipeline {} alone in the file is {:?}, in the whole file {:?}", p.name, a, ps.get(k))),
+                Err(e) => fails.push(format!("pipeline {} alone in the file is rejected: {}", p.name, one_line(&e))),
+            }
+            k += 1;
+        }
+    }
+    let oracle = if fails.is_empty() { "ok".to_string() } else { format!("FAIL:{}", fails[0]) };
+    out.case(&req, &obs, &oracle);
+}
+
+#[derive(Clone, Copy, PartialEq)]
+struct WOpts {
+    on: bool,
+    include: bool,
+    validate_layout: bool,
+    /// ask for buffer addresses whatever the target is (an argument error unless the target is Vulkan)
+    force_ba: bool,
+}
+
+impl WOpts {
+    fn parse(s: &str) -> Option<WOpts> {
+        let mut o = WOpts { on: false, include: false, validate_layout: false, force_ba: false };
+        for (i, x) in s.split(',').enumerate() {
+            match (i, x) {
+                (0, "on") => o.on = true,
+                (0, "off") => {}
+                (_, "inc") if i > 0 => o.include = true,
+                (_, "vl") if i > 0 => o.validate_layout = true,
+                (_, "ba") if i > 0 => o.force_ba = true,
+                _ => return None,
+            }
+        }
+        Some(o)
+    }
+    fn show(&self) -> String {
+        format!(
+            "{}{}{}{}",
+            if self.on { "on" } else { "off" },
+            if self.include { ",inc" } else { "" },
+            if self.validate_layout { ",vl" } else { "" },
+            if self.force_ba { ",ba" } else { "" }
+        )
+    }
+}
+
+/// compile() on a wide program: the outcome in the shared canonical form plus the rendered state of every result
+fn compile_wide(prog: &WProgram, o: WOpts, tgt: Tgt, mode: &Mode) -> (CompileOutcome, Vec<String>) {
+    let r = render_wide(prog, &RenderOpts { include: o.include });
+    let defs: Vec<(&str, &str)> = if o.on { vec![("WIDE_ON", "1")] } else { Vec::new() };
+    let res = guard(|| {
+        let mut inc = MemFiles(r.files.clone());
+        let mut args = rssl::CompileArgs::new("main.rssl", &mut inc, tgt.target())
+            .defines(&defs)
+            .support_buffer_address(tgt.buffer_address() || o.force_ba)
+            .validate_layout_consistency(o.validate_layout);
+        match mode {
+            Mode::All => {}
+            Mode::Named(n) => args = args.pipeline_name(Some(n.as_str())),
+            Mode::NoPipeline => args = args.no_pipeline_mode(),
+        }
+        match rssl::compile(args) {
+            Ok(ps) => {
+                let states: Vec<String> = ps.iter().map(|p| show_state(&p.graphics_pipeline_state)).collect();
+                let outs = ps
+                    .into_iter()
+                    .map(|p| PipeOut {
+                        data: p.data,
+                        stages: p.stages.iter().map(|s| (format!("{:?}", s.stage), s.entry_point.clone(), s.thread_group_size)).collect(),
+                        slots: slots_of(&p.metadata),
+                        metadata: format!("{:?}", p.metadata),
+                        state: format!("{:?}", p.graphics_pipeline_state),
+                    })
+                    .collect::<Vec<_>>();
+                Ok((outs, states))
+            }
+            Err(e) => Err(format!("{}", e)),
+        }
+    });
+    match res {
+        Ok(Ok((v, s))) => (CompileOutcome::Ok(v), s),
+        Ok(Err(e)) => (CompileOutcome::Err(e), Vec::new()),
+        Err(p) => (CompileOutcome::Panic(p), Vec::new()),
+    }
+}
+
+fn is_front_error(e: &str) -> bool {
+    !(e == "Shader does not contain a single pipeline"
+        || e == "InvalidArgs"
+        || e.starts_with("Shader does not contain the pipeline: ")
+        || e.starts_with("error: metal generate:")
+        || e.starts_with("error: metal format:")
+        || e.starts_with("error: hlsl generate:")
+        || e.starts_with("error: hlsl format:")
+        || e.starts_with("error: interpolator required by pixel stage has not been provided"))
+}
+
+fn show_wide(o: &CompileOutcome, states: &[String]) -> String {
+    match o {
+        CompileOutcome::Ok(ps) => {
+            let mut s = String::from("ok:");
+            for (i, p) in ps.iter().enumerate() {
+                let st: Vec<String> = p.stages.iter().map(|(st, e, t)| format!("{}({})@{}", st, e, show_tgs(t))).collect();
+                s.push_str(&format!("[{}|{}]", st.join(","), states.get(i).cloned().unwrap_or_default()));
+            }
+            s
+        }
+        CompileOutcome::Err(e) => {
+            if e == "Shader does not contain a single pipeline" {
+                "err:none".into()
+            } else if let Some(n) = e.strip_prefix("Shader does not contain the pipeline: ") {
+                format!("err:unknown:{}", n)
+            } else if e == "InvalidArgs" {
+                "err:args".into()
+            } else if is_front_error(e) {
+                "err:front".into()
+            } else {
+                "err:build".into()
+            }
+        }
+        CompileOutcome::Panic(p) => format!("panic:{}", p),
+    }
+}
+
+/// names of the active pipelines that do not build when they are the only pipeline of the file, and the bare build
+fn wide_alone(prog: &WProgram, o: WOpts, tgt: Tgt) -> (Vec<(String, CompileOutcome)>, CompileOutcome) {
+    let all = prog.pipes();
+    let mut each = Vec::new();
+    for (i, p) in all.iter().enumerate() {
+        let active = !(p.flags.contains('D') && !o.on) && !(p.flags.contains('E') && o.on);
+        if active {
+            each.push((p.name.clone(), compile_wide(&prog.keep_pipes(&|j| j == i), o, tgt, &Mode::All).0));
+        }
+    }
+    let bare = compile_wide(&prog.keep_pipes(&|_| false), o, tgt, &Mode::NoPipeline).0;
+    (each, bare)
+}
+
+fn run_wide(tgt: Tgt, mode: &Mode, o: WOpts, prog_s: &str, out: &mut Out, hist: &mut Hist) {
+    let Some(prog) = WProgram::parse(prog_s) else {
+        out.case(&format!("C17.wide\t{}\t{}\t{}\t{}\t-\tbare=err", tgt.name(), mode.show(), o.show(), prog_s), "", "SKIP:bad program");
+        return;
+    };
+    let (alone, bare) = wide_alone(&prog, o, tgt);
+    let failing: Vec<String> = alone.iter().filter(|(_, r)| !matches!(r, CompileOutcome::Ok(_))).map(|(n, _)| n.clone()).collect();
+    let req = format!(
+        "C17.wide\t{}\t{}\t{}\t{}\t{}\tbare={}",
+        tgt.name(),
+        mode.show(),
+        o.show(),
+        prog_s,
+        if failing.is_empty() { "-".to_string() } else { failing.join(",") },
+        if matches!(bare, CompileOutcome::Ok(_)) { "ok" } else { "err" }
+    );
+    let (result, states) = compile_wide(&prog, o, tgt, mode);
+    let obs = show_wide(&result, &states);
+    hist.add(&format!("wide-pipes={}", alone.len()));
+    hist.add(&format!("wide-outcome={}", if obs.starts_with("err:unknown") { "err:unknown" } else { obs.split('[').next().unwrap_or("") }));
+    hist.add(&format!("wide-opts={}", o.show()));
+    let mut fails: Vec<String> = Vec::new();
+    if let CompileOutcome::Panic(p) = &result {
+        fails.push(format!("panic {}", p));
+    }
+    // an argument error comes before anything else, whatever the file and the selection are
+    if o.force_ba && !matches!(tgt, Tgt::Vk | Tgt::VkBa) {
+        if result != CompileOutcome::Err("InvalidArgs".into()) {
+            fails.push(format!("buffer addresses requested for {}: {}", tgt.name(), describe(&result)));
+        }
+        let oracle = if fails.is_empty() { "ok".to_string() } else { format!("FAIL:{}", fails[0]) };
+        out.case(&req, &obs, &oracle);
+        return;
+    }
+    // a front-end rejection does not depend on the selection
+    let front_err = match &result {
+        CompileOutcome::Err(e) if is_front_error(e) => Some(e.clone()),
+        _ => None,
+    };
+    if matches!(mode, Mode::All) {
+        for m in [Mode::NoPipeline, Mode::Named("Nope".into())] {
+            let (other, _) = compile_wide(&prog, o, tgt, &m);
+            let other_front = match &other {
+                CompileOutcome::Err(e) if is_front_error(e) => Some(e.clone()),
+                _ => None,
+            };
+            if other_front != front_err {
+                fails.push(format!("front-end verdict depends on the selection mode: all {:?} / {} {:?}", front_err, m.show(), other_front));
+            }
+        }
+    }
+    match mode {
+        Mode::All if front_err.is_none() => {
+            if alone.is_empty() && result != CompileOutcome::Err("Shader does not contain a single pipeline".into()) {
+                fails.push(format!("file without pipelines: {}", describe(&result)));
+            }
+            for (i, (name, alone_r)) in alone.iter().enumerate() {
+                let (named, _) = compile_wide(&prog, o, tgt, &Mode::Named(name.clone()));
+                if &named != alone_r {
+                    fails.push(format!("pipeline {} by name {} but alone in the file {}", name, describe(&named), describe(alone_r)));
+                }
+                if let CompileOutcome::Ok(all) = &result {
+                    if all.len() != alone.len() {
+                        fails.push(format!("{} results for {} pipelines", all.len(), alone.len()));
+                        break;
+                    }
+                    if named != CompileOutcome::Ok(vec![all[i].clone()]) {
+                        fails.push(format!("pipeline {} differs between whole-file result and by-name result {}", name, describe(&named)));
+                    }
+                }
+            }
+            if let CompileOutcome::Err(e) = &result {
+                if !alone.is_empty() && failing.is_empty() {
+                    fails.push(format!("whole file fails ({}) but every pipeline compiles alone", one_line(e)));
+                }
+            }
+        }
+        Mode::Named(n) if front_err.is_none() => {
+            let exists = alone.iter().any(|(x, _)| x == n);
+            if !exists {
+                let want = CompileOutcome::Err(format!("Shader does not contain the pipeline: {}", n));
+                if result != want {
+                    fails.push(format!("unknown name {}: {}", n, describe(&result)));
+                }
+            } else {
+                let alone_r = &alone.iter().find(|(x, _)| x == n).unwrap().1;
+                if &result != alone_r {
+                    fails.push(format!("pipeline {} by name {} but alone in the file {}", n, describe(&result), describe(alone_r)));
+                }
+                if let CompileOutcome::Ok(v) = &result {
+                    if v.len() != 1 {
+                        fails.push(format!("{} results for one name", v.len()));
+                    }
+                }
+            }
+        }
+        Mode::NoPipeline if front_err.is_none() => match &result {
+            CompileOutcome::Ok(v) if v.len() == 1 && v[0].stages.is_empty() => {
+                if bare != result {
+                    fails.push("no-pipeline output depends on the pipeline definitions in the file".into());
+                }
+            }
+            CompileOutcome::Ok(v) => fails.push(format!("no-pipeline mode returned {} results", v.len())),
+            CompileOutcome::Err(_) => {
+                hist.add("wide-nopipeline-error");
+                if matches!(bare, CompileOutcome::Ok(_)) {
+                    fails.push("no-pipeline mode fails although the file without Pipeline blocks builds".into());
+                }
+            }
+            CompileOutcome::Panic(_) => {}
+        },
+        _ => {}
+    }
+    let oracle = if fails.is_empty() { "ok".to_string() } else { format!("FAIL:{}", fails[0]) };
+    out.case(&req, &obs, &oracle);
+}
+
+fn run_wide_line(f: &[&str], out: &mut Out, hist: &mut Hist) {
+    match f[0] {
+        "C17.typer" if f.len() == 3 => run_typer(f[1] == "on", f[2], out, hist),
+        "C17.wide" if f.len() == 7 => {
+            if let (Some(t), Some(m), Some(o)) = (Tgt::parse(f[1]), parse_mode(f[2]), WOpts::parse(f[3])) {
+                run_wide(t, &m, o, f[4], out, hist);
+            }
+        }
+        _ => {}
+    }
+}
+
+fn generate_wide(args: &Args, out: &mut Out, hist: &mut Hist) {
+    let n = args.n.unwrap_or(if args.thorough() { 6000 } else { 600 });
+    let mut rng = Rng::new(args.seed ^ 0x17_17);
+    for i in 0..n {
+        let mut prng = rng.fork();
+        let prog = gen_wide(&mut prng, &WideOpts { allow_mesh: i % 3 != 0, unsized_arrays: i % 5 == 0, ..WideOpts::default() });
+        let s = prog.show();
+        let on = rng.chance(1, 2);
+        run_typer(on, &s, out, hist);
+        if rng.chance(1, 4) {
+            run_typer(!on, &s, out, hist);
+        }
+        let o = WOpts { on, include: rng.chance(1, 5), validate_layout: rng.chance(1, 6), force_ba: rng.chance(1, 25) };
+        let names: Vec<String> = prog.active(on).pipes().iter().map(|p| p.name.clone()).collect();
+        // one or two targets per program, every mode
+        let t0 = ALL_TARGETS[(i % 4) as usize];
+        let mut tgts = vec![t0];
+        if rng.chance(1, 3) {
+            tgts.push(ALL_TARGETS[((i + 1 + rng.below(3)) % 4) as usize]);
+        }
+        for tgt in tgts {
+            run_wide(tgt, &Mode::All, o, &s, out, hist);
+            if !names.is_empty() {
+                // first, middle, last by turns
+                let k = match rng.below(3) {
+                    0 => 0,
+                    1 => names.len() / 2,
+                    _ => names.len() - 1,
+                };
+                run_wide(tgt, &Mode::Named(names[k].clone()), o, &s, out, hist);
+            }
+            if rng.chance(1, 3) {
+                // a name that is not there: never defined / defined only under the other setting of the define
+                let inactive: Vec<String> = prog.pipes().iter().map(|p| p.name.clone()).filter(|n| !names.contains(n)).collect();
+                let n = if !inactive.is_empty() && rng.chance(1, 2) {
+                    inactive[0].clone()
+                } else if !names.is_empty() && rng.chance(2, 3) {
+                    // a prefix / an extension / a case variant of a name that exists
+                    let base = rng.pick(&names).clone();
+                    let cand = match rng.below(4) {
+                        0 => format!("{}0", base),
+                        1 => base[..base.len() - 1].to_string(),
+                        2 => base.to_lowercase(),
+                        _ => base.to_uppercase(),
+                    };
+                    if cand.is_empty() { "Nope".to_string() } else { cand }
+                } else {
+                    "Nope".to_string()
+                };
+                run_wide(tgt, &Mode::Named(n), o, &s, out, hist);
+            }
+            if rng.chance(1, 3) {
+                run_wide(tgt, &Mode::NoPipeline, o, &s, out, hist);
+            }
+        }
+    }
 }
